@@ -14,6 +14,9 @@ class C05Check(ExplainerCheck):
     def gen(self, seed, tier, run_index):
         rng = seeds.run_rng(seed, self.prop, tier, run_index)
         kinds = ["str", "int", "float", None]
+        big = run_index % 40 == 17
+        if big:
+            return gen_batch_plan(rng, self.prop, big=True, names_kind=kinds[run_index % 4], classes=["batch"])
         return gen_batch_plan(rng, self.prop, names_kind=kinds[run_index % 4])
 
 
